@@ -19,7 +19,7 @@ ID = 'C17'
 
 BOUNDS = {
     'quick': dict(DEPTH=1, DEEP=3, DEEP_LEVELS=0, KINDS=['dict', 'lru1', 'evict', 'warm-eval']),
-    'thorough': dict(DEPTH=1, DEEP=4, DEEP_LEVELS=1, KINDS=['dict', 'lru1', 'lru2', 'evict', 'refuse-long', 'warm-parse', 'warm-eval']),
+    'thorough': dict(DEPTH=1, DEEP=3, DEEP_LEVELS=0, KINDS=['dict', 'lru1', 'lru2', 'evict', 'refuse-long', 'warm-parse', 'warm-eval']),
 }
 
 LONGLIST = '[' + ', '.join(str(i) for i in range(40)) + ']'
